@@ -28,6 +28,7 @@ units.UNITS['JitMisc'] = clunits.gen_jitmisc
 units.UNITS['JitFrame'] = clunits.gen_jitframe
 units.UNITS['LibWrap'] = clunits.gen_libwrap
 units.UNITS['JitMem'] = clunits.gen_jitmem
+units.UNITS['StackRs'] = clunits.gen_stackrs
 units.UNITS['ApiFx'] = clunits.gen_apifx
 units.UNITS['ClCfg'] = clunits.gen_clcfg
 units.UNITS['ClMisc'] = clunits.gen_clmisc
